@@ -163,6 +163,18 @@ def U64_LIMIT : Nat := 2 ^ 64
 /-- script numbers are at most 4 bytes: |n| < 2^31 -/
 def SCRIPT_INT_LIMIT : Int := 2 ^ 31
 
+/-! ## Sorting (insertion sort: structurally recursive, so concrete instances reduce in the kernel).
+Rust uses `sort_unstable_by` / `sort`; for a total preorder whose ties are *identical* elements every
+sorting algorithm returns the same list (`Lemmas/Bolt3.lean`, `isort_eq_of_perm`). -/
+
+def insertSorted {α} (le : α → α → Bool) (a : α) : List α → List α
+  | [] => [a]
+  | b :: l => if le a b then a :: b :: l else b :: insertSorted le a l
+
+def isort {α} (le : α → α → Bool) : List α → List α
+  | [] => []
+  | a :: l => insertSorted le a (isort le l)
+
 /-! ## Canonical builder -/
 
 /-- One output under construction: the TxOut, its witness script, and the HTLC it carries. -/
@@ -227,7 +239,7 @@ def buildPanics (c : Content) : Bool :=
   (c.offered ++ c.received).any (fun h => decide (h.value * 1000 ≥ U64_LIMIT))
 
 def canonElems (s : Setup) (k : Keys) (c : Content) : List (Elem H) :=
-  (rawElems wsh s k c).mergeSort (Elem.le okey)
+  isort (Elem.le okey) (rawElems wsh s k c)
 
 def obscured (s : Setup) (c : Content) : Nat :=
   s.obscure ^^^ (INITIAL_COMMITMENT_NUMBER - (INITIAL_COMMITMENT_NUMBER - c.commitNum))
@@ -383,7 +395,7 @@ structure Info2 where
 deriving DecidableEq, Repr
 
 def Info2.mk' (toCs toBc : Nat) (offered received : List Htlc) (feerate : Nat) : Info2 :=
-  ⟨toCs, toBc, offered.mergeSort Htlc.le, received.mergeSort Htlc.le, feerate⟩
+  ⟨toCs, toBc, isort Htlc.le offered, isort Htlc.le received, feerate⟩
 
 def Info2.content (i : Info2) (commitNum : Nat) : Content :=
   ⟨commitNum, i.feerate, i.toCs, i.toBc, i.offered, i.received⟩
